@@ -134,6 +134,9 @@ C04_ReportedCanceled ==
                            /\ \E t \in TaskIds(j) : ~st.ack[j].okAtAck[t]) =>
      /\ ~Plain(st, j)
      /\ ~st.ack[j].failedAtAck => st.jobs[j].canceled
+     \* a task that is not allow_failure was executing and had not been told to stop before: it is interrupted by this
+     \* cancel, and the job ends canceled even if another task had failed earlier
+     /\ (~st.ack[j].stopBefore /\ \E t \in TaskIds(j) : st.ack[j].openAtAck[t] /\ ~V(j).tasks[t].allow) => st.jobs[j].canceled
 
 JobSame(j) == Known(pre, j) /\ st.jobs[j] = pre.jobs[j] /\ st.runs[j] = pre.runs[j]
 C04_Results ==
